@@ -20,6 +20,14 @@ bin/mkoverlay -repo "$REPO_DIR" -rt "$VERIF_DIR/rt" -out "$S" > "$S/mkoverlay.lo
 go build -modfile="$S/go.mod" -overlay "$S/overlay.json" -o "$S/panmc" ./cmd/panmc > "$S/build.log" 2>&1 || { cat "$S/build.log" >&2; echo "HARNESS-ERROR: overlay build failed" >&2; exit 2; }
 (cd "$REPO_DIR" && go build -o "$S/pangaea" . ) > "$S/build2.log" 2>&1 || { cat "$S/build2.log" >&2; echo "HARNESS-ERROR: CLI build failed" >&2; exit 2; }
 export PANMC_CLI="$S/pangaea" PANMC_SCRATCH="$S" PANMC_VERIF="${PANMC_VERIF_OUT:-$VERIF_DIR}" PANMC_OVERLAY="$S/overlay.json" PANMC_REPO="$REPO_DIR"
+if [ "$ID" = "C20" ] && [ "$MODE" = "thorough" ]; then
+  # free-running -race complement (not deciding): same bodies on real goroutines
+  if go build -race -modfile="$S/go.mod" -overlay "$S/overlay.json" -o "$S/c20race" ./cmd/c20race > "$S/build3.log" 2>&1; then
+    export PANMC_RACEBIN="$S/c20race"
+  else
+    echo "note: -race complement not built: $(head -3 "$S/build3.log")" >&2
+  fi
+fi
 if [ "$MODE" = "--replay" ]; then
   "$S/panmc" replay "${2:?replay file}"
   exit $?
